@@ -262,6 +262,15 @@ def split_line_shape(ctx, rep, cl):
     ))
     for path in A.paths(f).paths:
         r = path.returned()
+        if not path.feasible():
+            continue
+        if path.conds and r is not None and r[0] == "tuple" and len(r[1]) == 3 and r[1][1:] == want[1][1:]:
+            # the all-blank line written out as its own case: line[:-0] is the empty text, so `leading = ""` when line.lstrip() is empty says the same
+            tv = path.truth(call("lstrip"))
+            others = [t for t, pol in path.atoms() if t != call("lstrip")]
+            if not others and ((tv is True and r[1][0] == want[1][0]) or (tv is False and r[1][0] == ("const", ""))):
+                rep.ob(cl + ".split-line-shape", f.name, True, "all-blank lines handled as an explicit case with the same result", W(f), nontrivial=False)
+                continue
         rep.ob(cl + ".split-line-shape", f.name, r == want and not path.conds,
                "returns %s; expected (line[:-len(line.lstrip())], line.split(), line[len(line.rstrip()):]) — the three use the same (default) whitespace definition, so leading + tokens + trailing loses nothing but inner spacing" % show(r), W(f), key=cl + ".split-line-shape|_split_line")
 
@@ -294,15 +303,41 @@ def c12(ctx, rep):
     checks_ip._undo_threading(ctx, m, rep, "C12")
     _word_and_as_shapes(ctx, rep, "C12")
     checks_secret._enclosing_lists(ctx, rep, "C12")
+    # "tokens that are not sensitive items are carried over verbatim": masks and listed networks are such tokens (the gate names them exactly),
+    # and a $9$-looking token the decoder neither refuses nor decodes takes the rest of the file with it
+    checks_ip._gate_content(ctx, m, rep, "C12")
+    import_clauses(ctx, rep, "C12", "C05", checks_ip.c05, ("C05.preserved-list",))
+    import_clauses(ctx, rep, "C12", "C18", _misc.c18, ("C18.valid-alphabet", "C18.valid-min-length", "C18.validated-before-tables", "C18.refusal"), with_k3=False)
+
+
+def _sub_report(ctx, pid, fnc, **kw):
+    """Obligations of another property's check on a scratch report (cached per analysis context).  Nested imports are not
+    followed: the clauses adopted from a check are its own, so two checks may adopt from each other."""
+    from .report import Report
+    cache = ctx.__dict__.setdefault("_import_cache", {})
+    key = (pid, tuple(sorted((k, repr(v)) for k, v in kw.items())))
+    if key in cache:
+        return cache[key]
+    depth = getattr(ctx, "_import_depth", 0)
+    if depth >= 1:
+        return None
+    sub = Report(pid, quiet=True)
+    ctx._import_depth = depth + 1
+    try:
+        fnc(ctx, sub, **kw)
+    finally:
+        ctx._import_depth = depth
+    cache[key] = sub.obligations
+    return sub.obligations
 
 
 def import_clauses(ctx, rep, cl, pid, fnc, keep, required=True, **kw):
     """Re-run another property's check on a scratch report and adopt the named clauses (prefix match) under this property's name."""
-    from .report import Report
-    sub = Report(pid, quiet=True)
-    fnc(ctx, sub, **kw)
+    obs = _sub_report(ctx, pid, fnc, **kw)
+    if obs is None:
+        return
     n = 0
-    for o in sub.obligations:
+    for o in obs:
         if any(o["clause"] == k or o["clause"].startswith(k) for k in keep):
             n += 1
             tail = o["clause"].split(".", 1)[1]
@@ -315,9 +350,8 @@ def _word_and_as_shapes(ctx, rep, cl):
     from .report import Report
     from . import checks_secret, checks_rx
     for pid, fnc, keep in (("C10", checks_secret.c10, ("C10.every-token", "C10.fast-path", "C10.reserved-lowercased", "C10.reserved-reach-word-stage", "C10.skip-set-subset-of-reserved", "C10.skip-set-built")), ("C11", checks_rx.c11, ("C11.sub-line", "C11.sub-callable", "C11.sub-plumbing", "C11.context-left", "C11.context-right", "C11.body-is-the-alternation"))):
-        sub = Report(pid, quiet=True)
-        fnc(ctx, sub)
-        for o in sub.obligations:
+        obs = _sub_report(ctx, pid, fnc)
+        for o in obs or ():
             if o["clause"] in keep or any(o["clause"].startswith(k) for k in keep):
                 rep.ob(cl + "." + o["clause"].split(".", 1)[1], o["construct"], o["ok"], o["detail"], o["where"], o.get("witness"), key="%s.%s|%s" % (cl, o["clause"].split(".", 1)[1], o["construct"]))
 
@@ -451,6 +485,10 @@ def c15(ctx, rep):
     from . import checks_rx as _rx, checks_secret as _sec
     import_clauses(ctx, rep, "C15", "C11", _rx.c11, ("C11.wiring",))
     import_clauses(ctx, rep, "C15", "C10", _sec.c10, ("C10.wiring",))
+    import_clauses(ctx, rep, "C15", "C19", c19, ("C19.binding", "C19.options-not-rewritten"))  # each feature's own options reach it whatever other features are on
+    # a feature's treatment of its text is decided by its own object: nothing shared between objects (class-level or default-argument memo, module table)
+    from .checks_misc import stage_state_rule
+    stage_state_rule(ctx, rep, "C15", ["FileAnonymizer"])
     option_of = STAGE_OPTIONS
     params = {("param", x) for x in f_fa.params}
     # default None
@@ -756,7 +794,7 @@ def c16(ctx, rep):
     from .ipmodel import IpModel
     _private_merge(ctx, IpModel(ctx), rep, "C16")
     stream_open_rule(ctx, rep, "C16")
-    import_clauses(ctx, rep, "C16", "C19", c19, ("C19.list-options", "C19.binding"))  # the command line hands the options on as the API takes them
+    import_clauses(ctx, rep, "C16", "C19", c19, ("C19.list-options", "C19.binding", "C19.options-not-rewritten", "C19.option-value-as-typed", "C19.option-source"))  # the command line hands the options on as the API takes them
     # nothing on the file path of the work is remembered across runs (a memoised "directory exists" is wrong after the directory was removed)
     from .checks_misc import stage_state_rule
     stage_state_rule(ctx, rep, "C16", ["anonymize_files", "FileAnonymizer", "_mkdirs"])
@@ -902,6 +940,13 @@ def c19(ctx, rep):
     rep.trust("configargparse: options with a --long spelling can be set in the config file; command line overrides config file overrides defaults; required=True options must be present (configargparse docs)",
               "argparse converts ArgumentTypeError/ValueError/ArgumentError raised by a type function into a usage error before main continues")
     rep.assume("configargparse's own precedence logic is third-party; only that _parse_args does not post-process or re-parse is checked")
+    # "options behave identically" however and whenever they are given: nothing a run leaves behind in the process decides what the next run writes,
+    # and every accepted host-bit count is usable in both directions
+    from .checks_misc import stage_state_rule
+    stage_state_rule(ctx, rep, "C19", ["netconan.main"])
+    import_clauses(ctx, rep, "C19", "C16", c16, ("C16.mkdirs-guard",), required=False)
+    from . import checks_ip as _ip
+    import_clauses(ctx, rep, "C19", "C02", _ip.c02, ("C02.result-int", "C02.undo."))
     f_main = p.find_function("netconan.main")
     f_files = p.find_function("anonymize_files")
     f_parse = p.find_function("_parse_args")
@@ -1083,6 +1128,10 @@ def c19(ctx, rep):
             v = b.get(prm)
             ok = v is not None and any(s == A_(prm) for s in subterms(v)) or v == ("const", None)
             rep.ob("C19.binding", "main:%s" % prm, ok, "anonymize_files(%s=%s)" % (prm, show(v)), W(f_main, call.node), key="C19.binding|main:%s" % prm)
+        # ... and what was parsed is not edited on the way: no attribute of the option namespace is assigned in main
+        rew = sorted({e.b for pth in fp.paths if pth.feasible() for e, ls in walk_effects(pth.effects) if e.kind == "store_attr" and e.a == args_t})
+        rep.ob("C19.options-not-rewritten", "main", not rew, "main assigns option(s) %s of the parsed namespace before handing them on: the command line then no longer means what the API call with the same values means" % rew, W(f_main),
+               key="C19.options-not-rewritten|main")
         extra = [k for k in b if k.startswith("*")]
         rep.ob("C19.binding-arity", "main", not extra, "unbound extra arguments: %s" % extra, W(f_main, call.node), nontrivial=False)
     f_fa = p.find_function("FileAnonymizer.__init__")
